@@ -95,7 +95,7 @@ for pid in sorted(CLAIMS):
     tech, text, ref = CLAIMS[pid]
     if pid in EXTRA:
         tech = tech + ", " + EXTRA[pid][0]
-        text = text.replace(" NOT decided", "; also: " + EXTRA[pid][1] + ". NOT decided", 1) if " NOT decided" in text else text + " Also: " + EXTRA[pid][1] + "."
+        text = text.replace(". NOT decided", "; also: " + EXTRA[pid][1] + ". NOT decided", 1) if ". NOT decided" in text else text + " Also: " + EXTRA[pid][1] + "."
     checks.append({
         "property_id": pid,
         "quick_cmd": "./run.sh %s quick" % pid,
